@@ -596,6 +596,13 @@ def standin_read(tier, seed):
         texts.add('fragment a{ C labeled c1 {in ring of size %s} }' % big)
         texts.add('fragment a{ C labeled c1 {in >%s ring} }' % big)
         texts.add('fragment a{ C labeled c1 {has %s radical electrons} }' % big)
+    # every reader-error path of the rule reader (labels in different reactants, bond that does not exist / does not match, radical count below zero, ...)
+    R2 = 'rule r{ reactant a{ C labeled c1 C labeled c2 double bond to c1 } reactant b{ C labeled c3 H labeled h3 single bond to c3 } %s }'
+    for ed in ('break bond (c1, c3)', 'form bond (c1, c3)', 'increase bond order (c1, c3)', 'decrease bond order (c1, c3)', 'break bond (c1, c2)', 'break single bond (c1, c2)',
+               'break double bond (c1, c2)', 'break bond (c3, h3) break bond (c3, h3)', 'decrease number of radical (c1)', 'modify number of radical (c1, 9)', 'increase bond order (c3, h3)',
+               'decrease bond order (c3, h3)', 'modify bond (c1, c2, triple)', 'modify bond (c3, c1, single)', 'break bond (c1, zz)', 'form bond (c1, c2)', 'decrease bond order (c1, c2) decrease bond order (c1, c2) decrease bond order (c1, c2)'):
+        texts.add(R2 % ed)
+        texts.add(R2 % (ed + ' increase number of radical (c1) increase number of radical (c2)'))
     for pre in ('aromatic', 'nonaromatic', 'ringatom', 'nonringatom', 'allylic'):
         texts.add(R_ % ('modify atomtype (c1, %s C)' % pre))
         texts.add(R_ % ('modify atomtype (c1, %s C.)' % pre))
